@@ -450,7 +450,10 @@ impl Case for WakeCase {
                 simk::with_ring(self.rfd, |r, ev| r.post_raw(None, Cqe { user_data: 0, res: 0, flags: 0 }, ev));
             }
         }
-        sched::finish_all();
+        let stuck = sched::finish_all();
+        if !stuck.is_empty() {
+            self.oracle.push(("C11".into(), "C11/call-never-returns".into(), format!("{} thread(s) inside SubmissionQueue::wake / Ring::poll did not return within 100000 scheduling steps after the script ended (every other thread had finished, the kernel thread had run and a completion had been posted)", stuck.len())));
+        }
         sched::uninstall();
         self.fills.clear();
         drop(lockp(&self.ring).take());
